@@ -13,40 +13,56 @@
 (* Needs.  A package may also RE-register a hash with its own               *)
 (* implementation (crypto.RegisterHash): the registry then still has it.    *)
 (*                                                                         *)
-(*   Link     the linker fixes the package set                              *)
-(*   RunInits every linked package's init registers what it registers       *)
-(*   CallHash the program calls HashToGroup / EncodeToGroup / HashToScalar  *)
+(*   Link         the linker fixes the package set                          *)
+(*   RunInits     every linked package's init registers what it registers   *)
+(*   CallHash     the program calls HashToGroup / EncodeToGroup /           *)
+(*                HashToScalar (twice: before and after LateRegister)       *)
+(*   LateRegister packages in Late register from main, AFTER the program's  *)
+(*                first hashing call (crypto.RegisterHash may be called at  *)
+(*                any time; the API may keep nothing from an earlier call   *)
+(*                that a later registration invalidates)                    *)
+(*                                                                         *)
+(* A "platform" is a build configuration: a GOOS/GOARCH target, optionally  *)
+(* with a set of build tags ("linux/amd64 +purego") -- every tag that the   *)
+(* library's own build constraints mention is a configuration of its own.   *)
 (***************************************************************************)
 EXTENDS Naturals, FiniteSets
 
 CONSTANTS Universe,      \* packages a program might additionally link
           Registers,     \* Registers[p]: hashes p's init puts into the registry
-          Platforms,     \* GOOS/GOARCH targets (build constraints can change what is linked)
+          Late,          \* the packages of Universe whose registration happens after the first hashing call
+          Platforms,     \* build configurations: GOOS/GOARCH [+tags] (build constraints can change what is linked)
           LibClosure,    \* LibClosure[pl]: packages linked on pl because the library imports them (transitively)
           Needs          \* hashes the hashing API requests from the registry
 
-VARIABLES platform, extra, registry, phase, outcome
-vars == << platform, extra, registry, phase, outcome >>
+VARIABLES platform, extra, registry, phase, outcome, calls
+vars == << platform, extra, registry, phase, outcome, calls >>
 
 RegOf(p) == IF p \in DOMAIN Registers THEN Registers[p] ELSE {}
 
 Init == /\ platform \in Platforms
         /\ extra \in SUBSET Universe          \* every program
-        /\ registry = {} /\ phase = "linked" /\ outcome = "none"
+        /\ registry = {} /\ phase = "linked" /\ outcome = "none" /\ calls = 0
 
 RunInits == /\ phase = "linked"
-            /\ registry' = UNION {RegOf(p) : p \in LibClosure[platform] \cup extra}
-            /\ phase' = "running" /\ UNCHANGED << platform, extra, outcome >>
+            /\ registry' = UNION {RegOf(p) : p \in LibClosure[platform] \cup (extra \ Late)}
+            /\ phase' = "running" /\ UNCHANGED << platform, extra, outcome, calls >>
 
-CallHash == /\ phase = "running"
-            /\ outcome' = IF Needs \subseteq registry THEN "ok" ELSE "panic"
-            /\ phase' = "done" /\ UNCHANGED << platform, extra, registry >>
+CallHash == /\ phase \in {"running", "late"}
+            /\ outcome' = IF outcome # "panic" /\ Needs \subseteq registry THEN "ok" ELSE "panic"
+            /\ calls' = calls + 1
+            /\ phase' = IF phase = "late" THEN "done" ELSE "called"
+            /\ UNCHANGED << platform, extra, registry >>
 
-Next == RunInits \/ CallHash
+LateRegister == /\ phase = "called"
+                /\ registry' = registry \cup UNION {RegOf(p) : p \in extra \cap Late}
+                /\ phase' = "late" /\ UNCHANGED << platform, extra, outcome, calls >>
+
+Next == RunInits \/ CallHash \/ LateRegister
 Spec == Init /\ [][Next]_vars
 
 \* what the model predicts for one program
-Predict(pl, ex) == IF Needs \subseteq UNION {RegOf(p) : p \in LibClosure[pl] \cup ex} THEN "ok" ELSE "panic"
+Predict(pl, ex) == IF Needs \subseteq UNION {RegOf(p) : p \in LibClosure[pl] \cup (ex \ Late)} THEN "ok" ELSE "panic"
 
 \* C17
 NeverPanics == phase = "done" => outcome = "ok"
